@@ -42,7 +42,7 @@ one was found and `no-failing-input-found` otherwise (§2.4).
 | C12 | `Hash`; 16 | byte-exact pre-image correspondence | ≈ 11 s |
 | C13 C18 | `Residual` wrapper + regenerated model functions (`Props/C13`, `Props/C13Shape`), regenerated default weighting distances and parameter limits (`Props/C13Defaults`), `Registry`, generated attribute tables; 39 + 12 | regeneration; harness models (order-sensitive, retained results); mutant modules, call sequences | 3–4 s |
 | C14 | `Order` + generated requirement table; 14 (`decide +kernel` over all selections) | exhaustive correspondence | ≈ 6 s |
-| C15 | `TrainingSet`; 9 | real training-set directories at exact rationals | ≈ 5 s |
+| C15 | `TrainingSet`; 9 + 4 (`Props/C15Mixed`) | real training-set directories at exact rationals | ≈ 5 s |
 | C16 | `Container`; 11 | h5 dumps + fault injection at every write | ≈ 55 s |
 | C17 | `Features`; 26 | stub datasets at exact rationals; names exhaustively | ≈ 10 s |
 | C19 | `Profile`, `Legacy` (the key=value parser) + generated defaults; 11 + 14 | files + scripted input; every generated legacy file parsed by both | ≈ 10 s |
@@ -153,7 +153,7 @@ corrected with `gcf_k` turned out to violate C04 and C11 once the generator cove
 
 ### 9.5 Seeded changes (independent sub-agents, property text + scratch worktree only)
 
-Two hundred and twenty-four changes are kept under `seeded/<id>/` (`patch.diff`, `demo.py`, `meta.json`; each
+Two hundred and fifty-eight changes are kept under `seeded/<id>/` (`patch.diff`, `demo.py`, `meta.json`; each
 confirmed by me in a scratch worktree: demo passes on HEAD, fails with the change, 176 tests pass with it): forty
 from the first round (two per property), ten from a second round of eight agents, seventeen from a third round
 of twelve agents, thirty-one from a fourth round of twenty agents that were asked to avoid the most obvious
@@ -169,8 +169,12 @@ parameters only, the second / third segment, options that are accepted but ignor
 metadata and folder handling, saturated or incomplete data, documented return conventions), and twenty-four from
 an eighth round of twenty agents that were pointed at public functions hardly touched so far and at pairs of
 functions that must agree with each other, and twenty-eight from a ninth round of twenty agents that were asked to
-run the test suite under a line / branch tracer and to change code the suite never executes; ninety-four further
-submissions duplicated earlier changes and were not kept.  C04c, C11a, C11b and C11c were re-expressed on the tree in which the contact-point limits are corrected
+run the test suite under a line / branch tracer and to change code the suite never executes, and thirty-four from a
+tenth round of twenty agents that were additionally pointed at strict versus non-strict comparisons that only differ
+when a value coincides with a bound, at pairs of edits, at sign conventions, ancillary parameters, group / map helpers,
+the rating manager and returned types; ninety-eight further submissions duplicated earlier changes and were not kept.
+After the repair 1e22c1e of `apply_preprocessing` C03a, C06a and C06d were re-expressed on the repaired tree and
+re-confirmed.  C04c, C11a, C11b and C11c were re-expressed on the tree in which the contact-point limits are corrected
 with `gcf_k`, C10g on the tree in which `compute_poc` converts its input to floating point, C16g and C16i on the
 tree in which rating containers store `range_x` as plain floats, and re-confirmed.
 Two earlier seeds were retired: C08f (in-place normalisation that failed for integer arrays) is harmless since
@@ -179,9 +183,9 @@ broke the property because `available()` handed out its cached list; after the r
 harmless (its demonstration passes).  Neither is counted any more.
 `tools/run_seeds.py` applies each to `/repo`, runs the quick check of its property, undoes it and
 writes `seeded/RESULTS.json`.  All of them are reported by `./check <property> --tier quick`; all but one with a
-concrete failing input (the share of first-missed seeds per round was 8/17, 15/31, 14/26, 13/28, 10/22, 5/24 and 12/28 in
-rounds three to nine – the last of them 12/28: code the test suite never executes is also code the checks had
-not reached yet).  The exception is C08j (`poc_deviation_from_baseline` tests `|force − baseline|` instead of
+concrete failing input (the share of first-missed seeds per round was 8/17, 15/31, 14/26, 13/28, 10/22, 5/24, 12/28 and 13/34 in
+rounds three to ten – the last two were aimed at code the test suite never executes, which is also code the checks
+had not reached yet).  The exception is C08j (`poc_deviation_from_baseline` tests `|force − baseline|` instead of
 the signed deviation): it keeps every returned index valid and invariant and leaves clean model curves untouched –
 what it changes is the estimate on curves with a descending baseline, for which the property states no accuracy –
 so no input violates the statement; the correspondence with the Lean model of the estimator breaks and the check
@@ -307,8 +311,8 @@ Checks that had to be strengthened because a seed was first missed or reported o
   unchanged; degenerate recordings on which the estimators find nothing; option values that cannot be compared with
   the stored ones – C06m and the repaired defect 1e22c1e), C07 (the tip-sample separation asked for a second time
   after the force was corrected, in the pipeline and by calling the step functions on a processed curve – C07l), C08
-  (recordings of 6500–12000 samples; for the quadratic models, which the polynomial fits represent exactly, the
-  stated fraction is 1 % plus one sample instead of 35 % – C08l took the centre fallback within the old bound), C09
+  (recordings of 6500–12000 samples; for the quadratic models, which the polynomial fits represent almost
+  exactly (δ³/(aδ² + bδ + c) → δ²/b), the stated fraction is 1 % plus one sample instead of 35 % – C08l took the centre fallback within the old bound), C09
   (user directories holding NaN, +inf and −inf in one sample, and a user directory that carries the name of the
   shipped set, against a reference that reads and cleans the files itself – C09i/j), C10 (the details returned for a
   caller-held option dictionary edited between calls – C10l), C11 (the factor requested through each documented
@@ -322,6 +326,26 @@ Checks that had to be strengthened because a seed was first missed or reported o
   incomparable requests of the pair oracle; another (the plateau search ignores a changed lower interval bound even
   when it exceeds the upper one) leaves stored settings and results consistent with each other and is listed
   under the observations.
+
+* tenth round (13 of 34 were first missed, 2 more had no failing input): C01 (the default interval with the range type
+  switched to contact-point-relative – C01l), C02 (one parameter on each declared limit at which the documented
+  formula is defined: finite forces, the formula, the exact baseline – C02m), C06 (pipelines with height smoothing,
+  which works through the segment views of the curve, after a fit – C06n), C07 (the contact index used by the offset
+  corrections against the Lean model of the documented rule, strictly whenever binary64 is exact there – flat
+  baselines are generated on purpose; the same change was submitted for C08 and is kept as C07m and C08n), C09
+  (unrated samples, response −1, sitting on the rated curve in feature space: the reference weights the classes 0…10
+  only; fits whose fixed contact point leaves 0–3 approach samples in front of it – C09k/l), C10 (the standalone
+  rater: training arrays edited after `get_rater` returned; keyword arguments of an earlier `get_rater` call; the
+  table of regressor defaults is monitored – C10m/n), C11 (minimisers that report no uncertainties: Nelder–Mead,
+  `calc_covar=False` – C11n), C15 (a *folder* of rating containers with sub-folders as the rating source – C15l), C16
+  (directed “different fit” sequences: an all-NaN fit after a successful one and the reverse; a fit with an identical
+  hash on a curve whose segment switch was moved by hand – C16m/n), C17 (a “ringing” artefact; several hundred
+  samples are needed before the spike features respond, so long directed datasets were added, and – as the brief
+  prescribes – a broken tie with the Lean model now triggers a search among datasets of the same kind for one on
+  which a value clause fails on the implementation – C17l; the twin with a wide retract is evaluated with the contact
+  point just outside the approach range on purpose – which restored the detection of C17k that the new dataset kind
+  had shifted away), C18 (whatever was accepted must be usable: advertised ancillary keys can be named and computed –
+  C18k), C19 (open-ended intervals `[-inf, x]`, `[x, inf]` as profile values – C19q).
 
 ### 9.6 Observations that are not findings
 
